@@ -68,6 +68,11 @@ Msg(t) == IF EvalStop(t) \/ GenStop(t) THEN "Limits"
           ELSE IF t.exitreq THEN "Interrupt"
           ELSE IF t.term THEN "Term" ELSE "None"
 
+(* the warning flag the one-line wrappers (fmin, fmin_powell, diffev, diffev2) return next to *)
+(* (xopt, fopt, iter, funcalls): 1 = evaluation limit reached, 2 = generation limit reached  *)
+(* (evaluations take priority, as in Msg), 0 = neither: the run converged                    *)
+WarnFlag(t) == IF EvalStop(t) THEN 1 ELSE IF GenStop(t) THEN 2 ELSE 0
+
 -----------------------------------------------------------------------------
 Init0(kind, np, dim, defG, defE) ==
         [kind |-> kind, np |-> np, dim |-> dim, defG |-> defG, defE |-> defE,
